@@ -728,6 +728,53 @@ def check_tip_state_clamp(ctx, rep):
               "tip states must be data_type.encoding(symbol) clamped to state_count (the index of the all-ones column)")
 
 
+def check_sampling_times_order(ctx, rep):
+    """C02.N — the vector of sampling times is indexed like the leaves (taxon-index order, the order of the Taxa): every store to an attribute `sampling_times` is None, a
+    device / dtype move of itself, or a value filled by iterating over the taxa — never by iterating over the tree's leaves (newick order) or traversals."""
+    moves = {'cuda', 'cpu', 'to', 'clone', 'detach', 'double', 'float'}
+    tree_orders = ('leaf_node_iter', 'leaf_nodes', 'postorder', 'preorder', 'levelorder', 'nodes(', '.leaves')
+    n = 0
+    for mname, m in sorted(ctx.prog.modules.items()):
+        if not mname.startswith('torchtree.evolution'):
+            continue
+        for fn in [f for f in ast.walk(m.tree) if isinstance(f, ast.FunctionDef)]:
+            cl_ = getattr(fn, '_parent', None)
+            scope = f"{cl_.name}.{fn.name}" if isinstance(cl_, ast.ClassDef) else fn.name
+            for st in ast.walk(fn):
+                if not (isinstance(st, ast.Assign) and any(isinstance(t, ast.Attribute) and t.attr == 'sampling_times' for t in st.targets)):
+                    continue
+                tgt = next(t for t in st.targets if isinstance(t, ast.Attribute) and t.attr == 'sampling_times')
+                key = f"{mname.replace('torchtree.', '')}::{scope}::sampling-times-in-taxon-order::{norm_text(st.value)[:40]}"
+                v = st.value
+                if isinstance(v, ast.Constant) and v.value is None:
+                    continue
+                n += 1
+                if isinstance(v, ast.Call) and isinstance(v.func, ast.Attribute) and v.func.attr in moves and isinstance(v.func.value, ast.Attribute) \
+                        and v.func.value.attr == 'sampling_times' and ast.unparse(v.func.value.value) == ast.unparse(tgt.value):
+                    rep.ok('C02.N', key, where(m, st), {'kind': 'move of itself'})
+                    continue
+                names = {x.id for x in ast.walk(v) if isinstance(x, ast.Name)}
+                iters = [g.iter for c in ast.walk(v) if isinstance(c, (ast.ListComp, ast.GeneratorExp)) for g in c.generators]
+                for loop in ast.walk(fn):
+                    if isinstance(loop, ast.For) and any(
+                            (isinstance(b, ast.Assign) and any(isinstance(t, ast.Subscript) and isinstance(t.value, ast.Name) and t.value.id in names for t in b.targets))
+                            or (isinstance(b, ast.Call) and isinstance(b.func, ast.Attribute) and b.func.attr in ('append', 'insert', 'extend') and isinstance(b.func.value, ast.Name)
+                                and b.func.value.id in names) for b in ast.walk(loop)):
+                        iters.append(loop.iter)
+                texts = [ast.unparse(i) for i in iters]
+                bad = [t for t in texts if any(k in t for k in tree_orders)]
+                if bad:
+                    rep.bad('C02.N', key, where(m, st), {'iterates_over': texts},
+                            f"{scope}: `{norm_text(st)[:70]}` fills the sampling times by iterating over {bad[0]} — the order of the leaves in the tree as written, not the order of "
+                            f"the Taxa that leaf indices refer to: with heterochronous tips every leaf whose position differs gets another leaf's date")
+                elif texts and all('taxa' in t for t in texts):
+                    rep.ok('C02.N', key, where(m, st), {'iterates_over': texts})
+                else:
+                    rep.undecided('C02.N', key, where(m, st), f"order of the stored value not recognised (iterates over {texts})")
+    if n < 3:
+        rep.incomplete('C02.N', 'sampling-times-in-taxon-order', '', f"only {n} stores to sampling_times found")
+
+
 def check_lookup_datatypes(ctx, rep):
     """data types whose encoding is not a class-level table (GeneralDataType: dictionaries built per instance; CodonDataType: computed): with ambiguities off, partial()
     must call a symbol definite exactly when encoding() does — it either derives its answer from self.encoding(...) or tests membership in the very table encoding() reads"""
@@ -869,6 +916,7 @@ def run(ctx, rep):
     except Unsupported as u:
         rep.undecided('C02.N', 'check_names', f"line {getattr(u.node, 'lineno', 0)}", str(u))
     check_table_datatypes(ctx, rep)
+    check_sampling_times_order(ctx, rep)
     # moving the root must not change the value (pulley principle): with rescaling this needs ONE scaler per site and node, taken over categories and states together and
     # added back as a per-site term — a scaler per rate category re-weights the categories differently at every node, and where the root sits then matters (C03.P rules)
     from props import c03
